@@ -63,7 +63,9 @@ fn gen(src: &mut Src, _tier: Tier) -> Case {
     if !alpha.contains(&foreign) && alpha.len() < 4 {
         alpha.push(foreign);
     }
-    Case { pat, flags: fl.text(), hay: String::new(), hay16: vec![], start: 0, x: json!({ "alpha": alpha }) }
+    let nh = src.range(2, 5);
+    let hays: Vec<String> = (0..nh).map(|_| witness_hay(src, &node, fl, &cfg.alpha, 6)).collect();
+    Case { pat, flags: fl.text(), hay: String::new(), hay16: vec![], start: 0, x: json!({ "alpha": alpha, "hays": hays }) }
 }
 
 fn compare(re: &regress::Regex, plain: &regress::Regex, h: &str, s: usize, enc: Enc) -> Result<(bool, bool), String> {
@@ -100,7 +102,9 @@ pub fn check_l(case: &Case, l: &mut Local, len: usize) -> Verdict {
     let mut any = false;
     let mut cut = 0u64;
     let mut evals = 0u64;
-    for h in all_strings(&alpha, len) {
+    let mut hs = super::c03::x_hays(case);
+    hs.extend(all_strings(&alpha, len));
+    for h in hs {
         for s in starts_of(&h) {
             for enc in [Enc::Utf8, Enc::Ascii] {
                 if enc == Enc::Ascii && !h.is_ascii() {
@@ -208,13 +212,13 @@ pub fn variants() -> Vec<&'static Variant> {
 pub fn run(ctx: &Ctx) -> i32 {
     match ctx.tier {
         Tier::Quick => {
-            ctx.run_variant(&V, ctx.scale(4_000, 0));
-            ctx.run_variant(&VS, ctx.scale(20_000, 0));
+            ctx.run_variant(&V, ctx.scale(24_000, 0));
+            ctx.run_variant(&VS, ctx.scale(160_000, 0));
         }
         Tier::Thorough => {
-            ctx.run_variant(&V, ctx.scale(0, 50_000));
-            ctx.run_variant(&VT, ctx.scale(0, 8_000));
-            ctx.run_variant(&VS, ctx.scale(0, 400_000));
+            ctx.run_variant(&V, ctx.scale(0, 300_000));
+            ctx.run_variant(&VT, ctx.scale(0, 40_000));
+            ctx.run_variant(&VS, ctx.scale(0, 3_000_000));
         }
     }
     {
